@@ -170,6 +170,13 @@ func (g *G) writerOf(m *grl.Model, pi *pathInfo) *grl.Action {
 func (g *G) flipTemplate(p *grl.Program, facts *grl.Facts, aTrue bool) bool {
 	m := &grl.Model{S: grl.NewState(facts)}
 	var pi *pathInfo
+	if g.R.Chance(1, 6) { // the mutator variant needs the I field of a fact
+		for i := range g.paths {
+			if grl.PrintPath(g.paths[i].p) == g.R.PickStr("F.I", "G.I") {
+				pi = &g.paths[i]
+			}
+		}
+	}
 	for tries := 0; tries < 10 && pi == nil; tries++ {
 		t := []grl.Type{grl.TInt, grl.TInt, grl.TString, grl.TBool, grl.TFloat}[g.R.Intn(5)]
 		c := g.pickPath(t, false, true)
@@ -196,7 +203,7 @@ func (g *G) flipTemplate(p *grl.Program, facts *grl.Facts, aTrue bool) bool {
 	bCond := g.condWith(m, true, 1)
 	b := &grl.Rule{Name: nameB, Salience: sal(g.R.PickInt64(1, 5, 2147483647)), When: bCond,
 		Then: []*grl.Action{wr, {K: "retract", Name: nameB}}}
-	if g.R.Chance(1, 3) {
+	if g.R.Chance(2, 3) {
 		// the write happens through a mutator announced with Changed/Forget
 		if pi.p.Root != "N" && len(pi.p.Steps) == 1 && pi.p.Steps[0].Field == "I" {
 			v0, _ := m.Eval(grl.PathE(pi.p))
